@@ -257,6 +257,12 @@ fn exercise_program(name: &str, spec: &ProgSpec, rng: &mut Rng, enumerate_cap: u
         // (a) every per-call acceptance limit of the set, incl. len_max-1
         let mut limits: Vec<usize> = LIMITS.to_vec();
         if max_req >= 2 { limits.push(max_req - 1); }
+        // small images: literally every k from 1 up to the largest single request (the property's own quantifier)
+        if reference.len() <= 600 && max_req <= 200 {
+            limits = (1..=max_req.max(1)).collect();
+            limits.extend_from_slice(&[1023, 1024, 8192]);
+            if stack == Stack::Raw { *out.probes.entry("programs_with_every_limit_k_enumerated").or_insert(0) += 1; }
+        }
         for k in limits {
             plans.push((WritePlan::limit(k), Teardown::FlushChecked));
             plans.push((WritePlan::limit(k), Teardown::DropOnly));
